@@ -75,6 +75,67 @@ func c15GenCase(r *rand.Rand, nmut int, http bool) C15Case {
 	return c
 }
 
+// c15GenBulkCase: a LARGE BUT FLAT valid document: hundreds of entities, each with several
+// list-valued properties and list-valued references (well over 1000 arrays in the one
+// document, none nested deeper than two levels). Limits on nesting depth are limits on
+// depth, not on how much a payload holds side by side.
+func c15GenBulkCase(r *rand.Rand, nmut int, http bool) C15Case {
+	n := 300 + r.Intn(150)
+	c := C15Case{NIDs: n, MSeed: r.Int63(), NMut: nmut, HTTP: http}
+	v := gen.NewVocab(n, 6, 3)
+	c.Doc.Prefixed = r.Intn(2) == 0
+	c.Doc.OSeed = r.Int63()
+	c.Doc.Omit = r.Intn(2) == 0
+	var ents []model.Ent
+	for i := 0; i < n; i++ {
+		id := v.IDs[i]
+		if i > 0 && r.Intn(20) == 0 {
+			id = v.IDs[r.Intn(i)] // now and then a later version of an earlier entity
+		}
+		e := model.Ent{ID: id, Props: map[string]any{}, Refs: map[string]any{}}
+		np := 4 + r.Intn(3)
+		for _, k := range r.Perm(len(v.Props))[:np] {
+			m := r.Intn(5)
+			a := make([]any, m)
+			for j := range a {
+				a[j] = gen.Scalar(r)
+			}
+			switch r.Intn(12) {
+			case 0: // a list of lists
+				a = []any{[]any{gen.Scalar(r)}, []any{gen.Scalar(r), gen.Scalar(r)}}
+			case 1: // a list holding a nested entity
+				a = append(a, map[string]any{"id": v.IDs[r.Intn(n)] + "-sub", "props": map[string]any{v.Props[0]: []any{gen.Scalar(r)}}, "refs": map[string]any{}})
+			}
+			e.Props[v.Props[k]] = a
+		}
+		for j := r.Intn(3); j > 0; j-- {
+			m := 1 + r.Intn(3)
+			a := make([]any, m)
+			for x := range a {
+				a[x] = v.IDs[r.Intn(n)]
+			}
+			e.Refs[v.Preds[r.Intn(len(v.Preds))]] = a
+		}
+		ents = append(ents, model.NormEnt(e))
+	}
+	if !http && r.Intn(3) == 0 {
+		c.Doc.Kind = "txn"
+		c.Doc.Txn = map[string][]model.Ent{"ta": ents[:n/2], "tb": ents[n/2:]}
+	} else {
+		c.Doc.Kind = "stream"
+		c.Doc.Ents = ents
+	}
+	return c
+}
+
+// sizeClass: class suffix of the large-but-flat documents.
+func (c C15Case) sizeClass() string {
+	if len(c.allEnts()) >= 200 {
+		return "-bulk-flat"
+	}
+	return ""
+}
+
 func (c C15Case) allEnts() []model.Ent {
 	if c.Doc.Kind == "txn" {
 		var all []model.Ent
@@ -100,6 +161,9 @@ func (c C15Case) tags() (tags []string, nontrivial bool) {
 		tags = append(tags, "absolute-uris")
 	}
 	tags = append(tags, c.Doc.Kind)
+	if len(c.allEnts()) >= 200 {
+		tags = append(tags, "bulk-flat")
+	}
 	if c.Doc.Omit && c15HasOmittable(c.allEnts()) {
 		tags = append(tags, "omitted-keys")
 	}
@@ -216,6 +280,11 @@ func c15Parse(ctx *Ctx) error {
 	nmut, _ := strconv.Atoi(ctx.Arg("nmut", "50"))
 	r := rand.New(rand.NewSource(ctx.Seed))
 	for i := 0; i < ctx.Cases; i++ {
+		if i == 0 && ctx.Arg("bulk", "1") != "0" {
+			// one large-but-flat document per child (its own generator stream, few mutations: they are as large)
+			c15RunParseCase(ctx, c15GenBulkCase(rand.New(rand.NewSource(ctx.Seed^0xb01c)), 3, false))
+			continue
+		}
 		c15RunParseCase(ctx, c15GenCase(r, nmut, false))
 	}
 	return nil
@@ -244,7 +313,7 @@ func c15RunParseCase(ctx *Ctx, c C15Case) {
 		case pan != nil:
 			s.viol("parser-panic-valid-document", fmt.Sprintf("ParseTransaction panicked on a valid document: %v", pan), "parsed", "panic", valid)
 		case err != nil:
-			s.viol("valid-rejected", "ParseTransaction rejected a valid document: "+err.Error(), "parsed", err.Error(), valid)
+			s.viol("valid-rejected"+c.sizeClass(), "ParseTransaction rejected a valid document: "+err.Error(), "parsed", err.Error(), valid)
 		default:
 			for _, n := range []string{"ta", "tb"} {
 				want, ok := c.Doc.Txn[n]
@@ -265,7 +334,7 @@ func c15RunParseCase(ctx *Ctx, c C15Case) {
 		case pan != nil:
 			s.viol("parser-panic-valid-document", fmt.Sprintf("ParseStream panicked on a valid document: %v", pan), "parsed", "panic", valid)
 		case err != nil:
-			s.viol("valid-rejected", "ParseStream rejected a valid document: "+err.Error(), "parsed", err.Error(), valid)
+			s.viol("valid-rejected"+c.sizeClass(), "ParseStream rejected a valid document: "+err.Error(), "parsed", err.Error(), valid)
 		default:
 			if msg := c15CompareParsed(core.Store, c.Doc.Ents, ents); msg != "" {
 				s.viol("valid-misparsed", msg, c.Doc.Ents, nil, valid)
@@ -691,6 +760,10 @@ func c15HTTP(ctx *Ctx) error {
 	nmut, _ := strconv.Atoi(ctx.Arg("nmut", "8"))
 	r := rand.New(rand.NewSource(ctx.Seed))
 	for i := 0; i < ctx.Cases; i++ {
+		if i == 0 && ctx.Arg("bulk", "1") != "0" {
+			h.runCase(c15GenBulkCase(rand.New(rand.NewSource(ctx.Seed^0xb01c)), 2, true))
+			continue
+		}
 		h.runCase(c15GenCase(r, nmut, true))
 	}
 	return nil
@@ -935,7 +1008,7 @@ func (h *c15HTTPRun) runCase(c C15Case) {
 		r := h.app.Do("POST", "/transactions", valid, nil)
 		h.ctx.Out.Ack(id, 0, nil)
 		if r.Panicked != nil || r.Status != 200 {
-			h.viol("valid-rejected", fmt.Sprintf("POST /transactions of a valid document -> %d %v %s", r.Status, r.Panicked, c15Short(r.Body)), 200, r.Status, valid)
+			h.viol("valid-rejected"+c.sizeClass(), fmt.Sprintf("POST /transactions of a valid document -> %d %v %s", r.Status, r.Panicked, c15Short(r.Body)), 200, r.Status, valid)
 			return
 		}
 		m.ApplyTxn(tx)
@@ -982,7 +1055,13 @@ func (h *c15HTTPRun) runCase(c C15Case) {
 	r := h.app.Do("POST", "/datasets/"+dsName+"/entities", valid, nil)
 	h.ctx.Out.Ack(id, 0, nil)
 	if r.Panicked != nil || r.Status != 200 {
-		h.viol("valid-rejected", fmt.Sprintf("POST of a valid document -> %d %v %s", r.Status, r.Panicked, c15Short(r.Body)), 200, r.Status, valid)
+		kept := ""
+		if ds := h.app.Dsm.GetDataset(dsName); ds != nil {
+			if feed, _, err := obs.Feed(h.app.Store, ds, 0, nil, false); err == nil {
+				kept = fmt.Sprintf("; %d of its %d entities stay stored", len(feed), len(c.Doc.Ents))
+			}
+		}
+		h.viol("valid-rejected"+c.sizeClass(), fmt.Sprintf("POST of a valid document -> %d %v %s%s", r.Status, r.Panicked, c15Short(r.Body), kept), 200, r.Status, valid)
 		return
 	}
 	m := model.New()
